@@ -507,12 +507,16 @@ def gen(rng, tier, profile, count, schemes=ALL):
     cases = []
     if profile == "c04":
         schemes = ("marlin", "sonic", "ipa")
+    if profile == "c07":
+        schemes = HIDING
     for k in range(count):
         scheme = schemes[k % len(schemes)]
         cid = "%s-%s-%d" % (profile, scheme, k)
         c = make_case(rng, cid, scheme, tier)
         if profile == "c04" and rng.random() < 0.3:
             inject_bound_violation(rng, c)
+        if profile == "c07":
+            c.set("c07", 1)
         if profile == "c06":
             add_history(rng, c, kinds=("lc",), nops=rng.randint(1, 2))
         elif profile == "c11":
